@@ -8,6 +8,8 @@ from .goworld import World, NAMES
 
 FRAME_ROUTES = ['to_frame', 'to_frame_go', 'iloc_all', 'getitem_all', 'rename', 'relabel', 'sort_columns', 'reindex', 'add0', 'deepcopy', 'pickle',
                 'columns_static', 'columns_go', 'row_series', 'dtypes', 'transpose2', 'iter_series0', 'set_index_less']
+FRAME_ROUTES_MORE = ['group_labels_first', 'group_labels_items_last', 'group_first', 'group_items_last', 'window_first', 'window_items_last', 'head1', 'tail1', 'loc_rows', 'drop_row',
+                     'roll_rows', 'shift0', 'fillna0', 'sort_index', 'astype_same', 'assign_same', 'from_concat_self', 'isna_neg', 'mask_row', 'dropna', 'iter_frame_group_array']
 INDEX_ROUTES = ['index_static', 'index_go', 'copy', 'rename', 'iloc_all', 'sort', 'union_self', 'deepcopy', 'pickle', 'to_series']
 
 
@@ -49,7 +51,7 @@ def random_history(rng, steps, start_id):
             src = rng.randint(1, n)
             if objs[src - 1]['kind'] == 'series' or n >= 9:
                 continue
-            route = rng.choice(FRAME_ROUTES if objs[src - 1]['kind'] == 'frame' else INDEX_ROUTES)
+            route = rng.choice((FRAME_ROUTES + FRAME_ROUTES_MORE) if objs[src - 1]['kind'] == 'frame' else INDEX_ROUTES)
             act = {'name': 'derive', 'source': src, 'route': route}
         outcome, exc = w.step(act)
         objs, broken = w.snapshot()
